@@ -5,6 +5,20 @@ VERIF = os.path.dirname(os.path.abspath(__file__))
 REPO = os.environ.get('LIBCSD_REPO', '/repo')
 NPROC = int(os.environ.get('VERIF_JOBS', '16'))
 
+# AddressSanitizer inflates stack frames several times: the recursive trie insertion of the XBW builder (depth = string
+# length) overflows the default 8 MiB stack on a 16 KiB string under ASan, while the uninstrumented library handles
+# 60 000-byte strings with it.  The harness processes therefore get a 256 MiB stack (set before they are exec'ed).
+try:
+    import resource
+    _soft, _hard = resource.getrlimit(resource.RLIMIT_STACK)
+    _want = 256 << 20
+    if _hard != resource.RLIM_INFINITY:
+        _want = min(_want, _hard)
+    if _soft != resource.RLIM_INFINITY and _soft < _want:
+        resource.setrlimit(resource.RLIMIT_STACK, (_want, _hard))
+except Exception:
+    pass
+
 
 def sh(cmd, **kw):
     return subprocess.run(cmd, shell=isinstance(cmd, str), stdout=subprocess.PIPE, stderr=subprocess.PIPE, text=True, **kw)
